@@ -190,9 +190,10 @@ class Paths(Harness):
                      "change point, the kind of change and the chunk size are the case split")
     nontrivial_event = "a parameter change or shock happened after at least one generated chunk"
     bounds = {"quick": "2 markets (one may have zero volatility), chunk size 2 or 3, horizon 7 steps, one change "
-                       "(drift / volatility incl. 0 <-> positive / set or remove correlation / price shock) at t in 1..5",
+                       "(drift / volatility incl. 0 <-> positive / set or remove correlation / price shock) at t in 1..5; "
+                       "a drift change followed by a second change at a later time with no read in between",
               "thorough": "3 markets, two successive changes"}
-    reach = ("nontrivial", "zero-vol-path", "vol-crosses-zero", "history-kept")
+    reach = ("nontrivial", "zero-vol-path", "vol-crosses-zero", "history-kept", "second-change-without-read")
     stubs = LogReturns.stubs + ("numpy.exp -> contract stub (exp > 0, sign, monotone)",)
     outside = ("float rounding of exp/cumsum", "start_at != 0", "setters called with their default time=0 (which regenerates everything by design)")
     agreement_runs = 4
@@ -204,6 +205,11 @@ class Paths(Harness):
             for kind in kinds:
                 for t in ((2,) if kind == "none" else (1, 2, 3, 4)):
                     out.append({"chunk": chunk, "kind": kind, "t": t, "zero1": kind == "vol-from-zero"})
+        # two changes at increasing times with no read in between (everything up to the horizon generated before)
+        for chunk in (3, 8):
+            for second in ("vol", "drift-other", "set-corr"):
+                for t, t2 in ((1, 3), (2, 3), (1, 5)):
+                    out.append({"chunk": chunk, "kind": "drift", "t": t, "zero1": False, "then": second, "t2": t2})
         return out
 
     HORIZON = 7
@@ -224,6 +230,8 @@ class Paths(Harness):
             t = case["t"]
             # read up to t (generates the chunks needed), snapshot, change at t, read the rest
             first = {m: [f.get_fundamental_price(m, k) for k in range(t + 1)] for m in (0, 1, 2)}
+            if case.get("then"):
+                f.get_fundamental_prices(0, range(self.HORIZON + 1))       # the whole horizon exists already
             if case["kind"] == "drift":
                 f.change_drift(0, g.real("mu0b", -1, 1), time=t)
             elif case["kind"] == "vol":
@@ -248,6 +256,14 @@ class Paths(Harness):
                 m.change_fundamental_price(scale=scale)
                 first[0][t] = first[0][t] * scale
                 g.require(m.get_fundamental_price() == first[0][t], "C12.shock-level")
+            if case.get("then") == "vol":
+                f.change_volatility(1, g.real("vol1b", 0, 10, lo_strict=True), time=case["t2"])
+            elif case.get("then") == "drift-other":
+                f.change_drift(1, g.real("mu1b", -1, 1), time=case["t2"])
+            elif case.get("then") == "set-corr":
+                f.set_correlation(0, 1, g.real("rho", -1, 1, lo_strict=True, hi_strict=True), time=case["t2"])
+            if case.get("then"):
+                g.note("second-change-without-read")
             if case["kind"] != "none":
                 g.note("nontrivial")
             gen_before = mon.n_gen
@@ -263,6 +279,18 @@ class Paths(Harness):
                     g.require(p[k] > 0, "C12.not-positive", f"market {m} time {k}")
             # every generated value continues from a kept value through exp(cumulated log-return)
             self.check_chain(g, f, mon, allp, skip=(0, t) if case["kind"] == "shock" else None)
+            # ... and every value after the (first) change was generated after the change(s), i.e. with the changed
+            # parameters: nothing generated earlier survives beyond the change point
+            if case["kind"] != "none":
+                owner = {}
+                for c, rec in enumerate(mon.gens):
+                    for x in rec["ids"]:
+                        for j in range(rec["logret"].shape[1]):
+                            owner[x, rec["until"] + 1 + j] = c
+                for x in (0, 1, 2):
+                    for k in range(t + 1, self.HORIZON + 1):
+                        g.require((x, k) in owner and owner[x, k] >= gen_before, "C12.value-after-change-not-regenerated",
+                                  f"market {x}: the value for time {k} > change time {t} was generated before the change(s)")
             # zero volatility: exactly level x exp(drift x steps)
             self.check_zero_vol(g, f, mon, allp, case)
         finally:
